@@ -350,6 +350,7 @@ package bt
 
 //@ func bt.(*Tx).estimatedFinalTx
 //@   bytes array
+//@   opt frame-keys F:bt.Input.UnlockingScript
 //@   opt closed-heaps 1
 //@   requires (spec.inputs_nonnil tx) (spec.outputs_nonnil tx)
 //@   fresh result
@@ -377,8 +378,7 @@ package bt
 //@ func bt.(*Tx).estimateDeficit
 //@   requires (spec.inputs_nonnil tx) (spec.outputs_nonnil tx)
 //@   requires (=> (not (nil? fees)) (spec.wf_quote fees))
-//@   requires (< (spec.sum_in tx) 18446744073709551616) (< (spec.sum_out tx) 18446744073709551616) (<= 0 (spec.sum_in tx)) (<= 0 (spec.sum_out tx))
-//@   ensures[C12.deficit] (=> (= err nil) (= r0 (ite (> (old (spec.sum_in tx)) (+ (old (spec.sum_out tx)) (spec.quoted fees (old (spec.est_std tx)) (old (spec.est_data tx))))) 0 (- (+ (old (spec.sum_out tx)) (spec.quoted fees (old (spec.est_std tx)) (old (spec.est_data tx)))) (old (spec.sum_in tx))))))
+//@   ensures[C12.deficit] (=> (= err nil) (old (spec.deficit_is tx fees r0)))
 
 // ---- wire serialisation (C01) ----
 //@ func bt.(*Input).Bytes
@@ -553,3 +553,52 @@ package bt
 //@ func bt.(*Tx).CalcInputSignatureHash
 //@   ensures[C03.sighash_errors] (=> (= (mod (div sigHashFlag 64) 2) 0) (= (= err nil) (and (< inputNumber (len (. tx Inputs))) (> (len (. (at (. tx Inputs) inputNumber) previousTxID)) 0) (not (nil? (. (at (. tx Inputs) inputNumber) PreviousTxScript))))))
 //@   ensures[C03.single_bug_hash] (=> (and (= err nil) (= (mod (div sigHashFlag 64) 2) 0) (= (mod sigHashFlag 32) 3) (>= inputNumber (len (. tx Outputs)))) (= (bytes r0) (bcat (b1 1) (bzeros 31))))
+
+// ---- funding (C12) ----
+//@ func bt.IsValidTxID
+//@   pure
+//@   ensures[validtxid] (= result (= (len txid) 32))
+//@ func bt.(*Input).PreviousTxIDAdd
+//@   assigns (. i previousTxID)
+//@   ensures[C12.txid_add] (and (= (= err nil) (= (len txID) 32)) (=> (= err nil) (= (. i previousTxID) txID)) (=> (not (= err nil)) (= (. i previousTxID) (old (. i previousTxID)))))
+//@ func bt.(*Tx).addInput
+//@   bytes array
+//@   ensures[C12.add_input] (and (= (len (. tx Inputs)) (+ (old (len (. tx Inputs))) 1)) (= (at (. tx Inputs) (old (len (. tx Inputs)))) input) (forall ((k Int)) (=> (and (<= 0 k) (< k (old (len (. tx Inputs))))) (= (at (. tx Inputs) k) (old (at (. tx Inputs) k))))))
+//@   ensures[C12.add_input_frame] (and (= (. tx Outputs) (old (. tx Outputs))) (= (. tx Version) (old (. tx Version))) (= (. tx LockTime) (old (. tx LockTime))))
+//@ func bt.(*Tx).FromUTXOs
+//@   bytes array
+//@   requires (forall ((j Int)) (=> (and (<= 0 j) (< j (len utxos))) (not (nil? (at utxos j)))))
+//@   requires (spec.inputs_nonnil tx)
+//@   ensures[C12.from_prefix] (and (>= (len (. tx Inputs)) (old (len (. tx Inputs)))) (forall ((k Int)) (=> (and (<= 0 k) (< k (old (len (. tx Inputs))))) (= (at (. tx Inputs) k) (old (at (. tx Inputs) k))))))
+//@   ensures[C12.from_count] (=> (= err nil) (= (len (. tx Inputs)) (+ (old (len (. tx Inputs))) (len utxos))))
+//@   ensures[C12.from_nonnil] (spec.inputs_nonnil tx)
+//@   ensures[C12.from_outputs_untouched] (= (. tx Outputs) (old (. tx Outputs)))
+//@   loop 0 invariant (and (= (len (. tx Inputs)) (+ (old (len (. tx Inputs))) (+ rangeindex 1))) (= (. tx Outputs) (old (. tx Outputs))) (spec.inputs_nonnil tx))
+//@   loop 0 invariant (forall ((k Int)) (=> (and (<= 0 k) (< k (old (len (. tx Inputs))))) (= (at (. tx Inputs) k) (old (at (. tx Inputs) k)))))
+
+// the UTXO supplier is the caller's function: assumed not to write memory of the library or of the transaction being
+// funded, and to return no nil entries. It must only ever be called with a positive deficit (obligation at each call).
+//@ sig utxogetter "func(ctx context.Context, deficit uint64) ([]*bt.UTXO, error)"
+//@   opt params ctx deficit
+//@   pure
+//@   requires (> deficit 0)
+//@   ensures (=> (= err nil) (forall ((j Int)) (=> (and (<= 0 j) (< j (len r0))) (not (nil? (at r0 j))))))
+//@ func bt.(*Tx).Fund
+//@   opt forall-patterns 1
+//@   requires (spec.inputs_nonnil tx) (spec.outputs_nonnil tx) (not (nil? next))
+//@   requires (=> (not (nil? fq)) (spec.wf_quote fq))
+//@   ensures[C12.outputs_untouched] (= (. tx Outputs) (old (. tx Outputs)))
+//@   ensures[C12.inputs_kept] (and (>= (len (. tx Inputs)) (old (len (. tx Inputs)))) (forall ((k Int)) (=> (and (<= 0 k) (< k (old (len (. tx Inputs))))) (= (at (. tx Inputs) k) (old (at (. tx Inputs) k))))))
+//@   ensures[C12.covered] (=> (= err nil) (spec.deficit_is tx fq 0))
+//@   loop 0 invariant (and (spec.inputs_nonnil tx) (spec.outputs_nonnil tx) (= (. tx Outputs) (old (. tx Outputs))) (>= (len (. tx Inputs)) (old (len (. tx Inputs)))))
+//@   loop 0 invariant (forall ((k Int)) (=> (and (<= 0 k) (< k (old (len (. tx Inputs))))) (= (at (. tx Inputs) k) (old (at (. tx Inputs) k)))))
+//@   loop 0 invariant (spec.deficit_is tx fq deficit)
+// the estimate works on a deep copy: nothing that existed before is written
+//@ func bt.(*Tx).estimatedFinalTx
+//@   pure
+//@ func bt.(*Tx).EstimateSizeWithTypes
+//@   pure
+//@ func bt.(*Tx).EstimateFeesPaid
+//@   pure
+//@ func bt.(*Tx).estimateDeficit
+//@   pure
